@@ -249,7 +249,7 @@ def tts_cases(draw):
     n = len(pts)
     return dict(layout=lay, points=pts, ncomp=draw(st.integers(1, 3)), weights=draw(st.sampled_from(["none", "given"])), blocked=draw(st.booleans()),
                 seed=draw(st.integers(0, 10**6)), test_size=draw(st.sampled_from([0.1, 0.25, 0.5, 2])), shape=draw(st.sampled_from(blocks.shape_options(n))),
-                extra=draw(st.booleans()), orders=draw(build.orders_strategy()))
+                extra=draw(st.booleans()), orders=draw(build.orders_strategy()), container=draw(st.sampled_from(build.CONTAINERS)))
 
 
 def check_tts(case, ctx):
@@ -275,7 +275,9 @@ def check_tts(case, ctx):
     d_arg = data[0] if case["ncomp"] == 1 else data
     w_arg = None if weights is None else (weights[0] if case["ncomp"] == 1 else weights)
     try:
-        train, test = vd.train_test_split(coords, d_arg, w_arg, **kw)
+        P = lambda a: build.present(a, case.get("container"))  # noqa: E731
+        wrap = lambda x: None if x is None else (tuple(P(a) for a in x) if isinstance(x, tuple) else P(x))  # noqa: E731
+        train, test = vd.train_test_split(wrap(coords), wrap(d_arg), wrap(w_arg), **kw)
     except ValueError:
         ctx.skip("sizes_impossible_for_this_many_rows_or_blocks")
     idx = {}
@@ -304,7 +306,7 @@ def check_tts(case, ctx):
         labels = np.array(mem[1])
         both = set(labels[idx["train"]].tolist()) & set(labels[idx["test"]].tolist())
         ctx.check(not both, "blocks %s have rows on both sides of a blocked split", sorted(both))
-    again = vd.train_test_split(coords, d_arg, w_arg, **kw)
+    again = vd.train_test_split(wrap(coords), wrap(d_arg), wrap(w_arg), **kw)
     ctx.check(np.array_equal(np.asarray(again[1][1][0]), np.asarray(test[1][0])), "train_test_split is not reproducible for a fixed random_state")
     ctx.label("blocked" if case["blocked"] else "random", "comps%d" % case["ncomp"], "weights" if weights is not None else "noweights", "ndim%d" % len(shape))
     ctx.nt(True)
